@@ -29,7 +29,7 @@ def compare(c, o):
         bad.append("detector Scan call counts %s, required %s" % (o["calls"], exp["calls"]))
     want_idx = {"all": exp["all"], "oftype": exp["oftype"], "specific": exp["specific"]}
     for di, seen in enumerate(o["seen"]):
-        for call, a in enumerate(seen):
+        for call, a in enumerate(seen or []):      # None: the detector was never run (reported by the call counts)
             if a != want_idx:
                 what = []
                 if a["all"] != want_idx["all"]:
